@@ -30,6 +30,7 @@ import (
 	"github.com/youzan/ZanRedisDB/pkg/fileutil"
 	"github.com/youzan/ZanRedisDB/pkg/wait"
 	"github.com/youzan/ZanRedisDB/raft"
+	"github.com/youzan/ZanRedisDB/raft/raftpb"
 )
 
 type verifState struct {
@@ -52,6 +53,11 @@ type verifState struct {
 	rdMsgs      int
 	lastTerm    uint64
 	lastVote    uint64
+	rdPubLast   uint64 // last index of the Ready's committed entries (0 = none)
+	rdEntsLast  uint64 // last index of the Ready's new entries (0 = none)
+	rdSnapIdx   uint64 // index of the Ready's snapshot (0 = none)
+	savedMax    uint64 // largest index this node has saved to its WAL (or read from it at restart)
+	walLast     uint64 // last entry index the WAL returned at restart
 
 	out *os.File
 }
@@ -124,6 +130,43 @@ func verifReady(isNewLeader bool, rd *raft.Ready) {
 		}
 		s.lastTerm, s.lastVote = rd.HardState.Term, rd.HardState.Vote
 	}
+	s.rdPubLast, s.rdEntsLast, s.rdSnapIdx = 0, 0, 0
+	if n := len(rd.CommittedEntries); n > 0 {
+		s.rdPubLast = rd.CommittedEntries[n-1].Index
+	}
+	if n := len(rd.Entries); n > 0 {
+		s.rdEntsLast = rd.Entries[n-1].Index
+	}
+	if !raft.IsEmptySnap(rd.Snapshot) {
+		s.rdSnapIdx = rd.Snapshot.Metadata.Index
+	}
+	s.mu.Unlock()
+}
+
+// verifWalRead / verifReplayed (startRaft, replayWAL): what the WAL held when the process
+// started and what raft's log holds after the replay, reported as one line.
+func verifWalRead(ents []raftpb.Entry) {
+	s := verifS
+	s.mu.Lock()
+	s.walLast = 0
+	if n := len(ents); n > 0 {
+		s.walLast = ents[n-1].Index
+	}
+	s.mu.Unlock()
+}
+
+func verifReplayed(rs raft.IExtRaftStorage) {
+	s := verifS
+	s.mu.Lock()
+	var raftLast uint64
+	if rs != nil {
+		raftLast, _ = rs.LastIndex()
+	}
+	s.savedMax = s.walLast
+	if raftLast > s.savedMax {
+		s.savedMax = raftLast // a snapshot above the last WAL entry
+	}
+	s.report("REPLAYED wal_last=%d raft_last=%d", s.walLast, raftLast)
 	s.mu.Unlock()
 }
 
@@ -133,6 +176,22 @@ func verifPoint(name string) {
 	s.hits[name]++
 	n := s.hits[name]
 	s.cond.Broadcast()
+	switch name {
+	case "persist.wal": // wal.Save of the current Ready returned
+		if s.rdEntsLast > s.savedMax {
+			s.savedMax = s.rdEntsLast
+		}
+	case "persist.snap":
+		if s.rdSnapIdx > s.savedMax {
+			s.savedMax = s.rdSnapIdx
+		}
+	case "ready.published":
+		// entries handed to the apply loop that this node has not saved to its WAL yet (a Ready that
+		// carries a snapshot publishes first by design: the apply loop waits for raftDone)
+		if s.rdSnapIdx == 0 && s.rdPubLast > s.savedMax {
+			s.report("PUBLISHED unsaved pub=%d saved=%d", s.rdPubLast, s.savedMax)
+		}
+	}
 	if name == "ready.sent.early" && s.rdMsgs > 0 {
 		// messages of the current Ready left before persistRaftState: reported with the kind of Ready
 		s.report("SENT early newleader=%v tvchanged=%v term=%d vote=%d", s.rdNewLeader, s.rdTVChanged, s.lastTerm, s.lastVote)
